@@ -68,6 +68,15 @@ theorem C11V2T_step_preserves (ops : FOps) (s : Schema) (op : TOp) (db : TDb) (h
     Inv (db.step ops s op).1 ∧ Spec.tracksWf (db.step ops s op).1 = true :=
   ⟨inv_step ops s op h, tracksWf_of_inv (inv_step ops s op h)⟩
 
+/-- **From any library whose raw rows pass the check** (not only those grown from
+the empty one — e.g. a library written by Engine and loaded): the executable
+predicate is exactly the invariant, so every history from such a table keeps it,
+a failed call leaves it untouched and the setters are atomic. -/
+theorem C11V2T_from_any_wellformed (ops : FOps) (s : Schema) (db : TDb) (h : Spec.tracksWf db = true)
+    (hist : List TOp) :
+    Spec.tracksWf (db.run ops s hist) = true ∧ (Spec.tracksWf db = true ↔ Inv db) :=
+  ⟨tracksWf_of_inv (inv_run ops s hist (inv_of_tracksWf h)), tracksWf_iff_inv db⟩
+
 /-- **A call that does not return normally leaves the Track table exactly as it
 was** — proved of the statement sequences (a `UNIQUE` failure of the k-th
 statement rolls back the k−1 before it because the C++ has a transaction scope
